@@ -22,7 +22,7 @@ PROP = "C10"
 LEVEL = "proof"
 ENGINES = ["E5 acyc", "E2 designgen+oracle"]
 TECHNIQUE = "SMT (z3 difference logic over Int levels) on the bit-level combinational dependency graph of the Amaranth netlist IR emitted for the really elaborated design; unsat core = cycle, replayed with Amaranth's own CombinationalCycle check"
-OPTS = dict(alias=True, combiner=True, fsm=True, nested_methods=True, p_fresh=0.96, fwd=True, p_before=0.5, p_conflict=0.5)
+OPTS = dict(multi=True, p_single_group=0.3, alias=True, combiner=True, fsm=True, nested_methods=True, p_fresh=0.96, fwd=True, p_before=0.5, p_conflict=0.5)
 BOUNDS = {"quick": "40 batches x 10 random specs (well-formed ones are checked) + 10 fixed compositions of library components; eager scheduler",
           "thorough": "400 batches x 25 random specs + the fixed compositions"}
 OUTSIDE = OUTSIDE_COMMON + ["readiness that depends on call arguments/results of other methods", "round-robin scheduler (the statement is about the default scheduler)"]
